@@ -439,9 +439,6 @@ class Extractor:
                     raise Untranslatable(f'{mn}:{cnode.lineno}: base `{ast.unparse(b)}` of {cn} resolves to a {r[0]}')
             bases[qual(mn, cn)] = bs
         # duplicates of a class name inside a module: the last definition wins; refuse
-        seen = {}
-        for (mn, cn), (cnode, _) in class_tables.items():
-            pass
         for mn, m in pkg.modules.items():
             names = [st.name for st in m.tree.body if isinstance(st, ast.ClassDef)]
             if len(names) != len(set(names)):
@@ -507,7 +504,6 @@ def _stmt(src):
 
 
 T_WARN = _dump(_stmt('warnings.warn(msg, DeprecationWarning, stacklevel=2)'))
-T_RAISE = _dump(_stmt("if RAISE_EXCEPTION:\n    raise BiogemeError('X')"))
 T_RET_CAPTURED = _dump(_stmt('return new_func(*args, **kwargs)'))
 T_RET_RECEIVER = _dump(_stmt('return getattr(args[0], new_func.__name__)(*args[1:], **kwargs)'))
 T_OWNED_TEST = _dump(_stmt(
@@ -1401,7 +1397,16 @@ def run(ctx):
 
     def timed(name, f, *a):
         t0 = time.time()
-        r = f(*a)
+        r = None
+        try:
+            r = f(*a)
+        except RuntimeError as e:
+            if not str(e).startswith('impl '):
+                raise
+            # the implementation runner itself could not start or finish (e.g. the package no longer imports):
+            # that is a fact about /repo, not a harness failure
+            ctx.stream(name, 'runner failed')
+            ctx.stream_broken(name, 'implementation runner failed: ' + str(e)[-700:])
         if name in ctx.streams:
             ctx.streams[name].extra['wall_s'] = round(time.time() - t0, 1)
         return r
@@ -1420,7 +1425,7 @@ def run(ctx):
     # the streams are independent: run them side by side (each one shards its own subprocesses)
     futs.append(pool.submit(timed, 'alias_reach', stream_reach, ctx, tab))
     futs.append(pool.submit(timed, 'kw_dyn', stream_kw, ctx, tab))
-    rt = timed('alias_enum', stream_enum, ctx, tab)
+    rt = timed('alias_enum', stream_enum, ctx, tab) or {}
     timed('alias_dyn', stream_dyn, ctx, tab, pkg, rt)
     for f in futs:
         f.result()
